@@ -1,7 +1,7 @@
 (** C18 — enrichment is per-address correct and failure-tolerant; caches keep only successes;
     providers are asked in order.  Theorems only. *)
 From Coq Require Import List ZArith Bool.
-From TR Require Import Res.Doc Pol.Cache Pol.PublicIp Proofs.DocProofs Proofs.PolProofs.
+From TR Require Import Res.Doc Pol.Cache Pol.PublicIp Proofs.DocProofs Proofs.PolProofs Lib.GoLists Lib.Shapes Generated.GoPublicIP Generated.Structure Proofs.GoTiePublicIP Proofs.ShapeProofs.
 Import ListNotations.
 Open Scope Z_scope.
 
@@ -82,3 +82,22 @@ Example C18_example :
   let g := get_public_ip 2000 500 3000 0 0 [[TransportErr 100; Resp 50 404 true]; [Resp 30 200 true]; [Resp 10 200 true]] in
   (g_winner g, g_requests g, g_elapsed g) = (Some 1, [2; 1; 0], 680).
 Proof. reflexivity. Qed.
+
+(** tie kind A: how publicip.handleRequest classifies one HTTP exchange as it stands in the source (transport / body-read error: retried; 4xx or a body that is not an address: final; otherwise the address) is what the provider model's [attempt_out] assumes, for every attempt that completes before the deadline *)
+Theorem C18_handleRequest_tied dl t a : 
+  match a with Hang => False | Resp d _ _ | TransportErr d | BodyErr d => t + d < dl end ->
+  class_of (fst (attempt_out dl t a)) =
+  match a with
+  | TransportErr _ => go_publicip_handleRequest_class false true 0 true
+  | BodyErr _ => go_publicip_handleRequest_class true false 0 true
+  | Resp _ st valid => go_publicip_handleRequest_class true true st (negb valid)
+  | Hang => 3
+  end.
+Proof. exact (@go_handleRequest_is_attempt_out dl t a). Qed.
+Print Assumptions C18_handleRequest_tied.
+
+(** tie kind A: GetPublicIP asks the providers in order, moves on after ANY error of one and returns the first success
+    (the shape [get_public_ip] models; regenerated on every run by tools/goextract/structure.go) *)
+Theorem C18_provider_loop_tied : publicip_first_success_loop = true.
+Proof. exact provider_loop_shape_tied. Qed.
+Print Assumptions C18_provider_loop_tied.
